@@ -51,8 +51,16 @@ def resolveExplicitAxis (e : List α) (n : Int) : Except String (List α) :=
   else if (e.length : Int) - 1 ≠ n then .error "err-mismatch"
   else .ok e
 
-/-- `round(length / spacing)` of `_resolve_grid_from_volume` -/
+/-- `round(length / spacing)` of `_resolve_grid_from_volume` — the policy's `center` does NOT enter the cell count -/
 def cellsFromLength (rnd : α → Int) (len h : α) : Int := rnd (len / h)
+
+/-- `_resolve_grid_from_volume` for one axis of a volume declared by its physical length, uniform policy with `center` -/
+def resolveUniformFromLength (cast : Nat → α) (rnd : α → Int) (center h len : α) : Except String (List α) :=
+  resolveUniformAxis cast center h (cellsFromLength rnd len h)
+
+/-- same for the quasi-uniform policy (spacing `s` on this axis) -/
+def resolveQuasiFromLength (cast : Nat → α) (rnd : α → Int) (center s len : α) : Except String (List α) :=
+  resolveQuasiAxis cast center s (cellsFromLength rnd len s)
 
 /-! ### metric factors of the curl -/
 
@@ -98,6 +106,7 @@ def showAxis : Except String (List Float) → String
   `resolve <uniform|quasi> center h n`          → edges | err-…
   `explicit n e…`                               → edges | invalid | err-mismatch
   `cells length h`                              → `round(length/h)`
+  `resolvelen <uniform|quasi> center h length`  → edges of the axis of a volume declared by its length | err-…
   `mscale nonuni<0|1> backward<0|1> cf c dt e…` → metric scale per cell (dt given), floats
   `eavg nonuni<0|1> cur prev i e…`              → float
   `grid …`                                      → the `grid` op of C37 (uniform flag, spacing, min widths, dt)
@@ -114,6 +123,13 @@ def handle : List String → String
     match parseInt n, floatsOfHex es with
     | some n, some e => showAxis (resolveExplicitAxis e n)
     | _, _ => "bad-op"
+  | ["resolvelen", kind, center, h, len] =>
+    match floatsOfHex [center, h, len] with
+    | some [c, h, len] =>
+      if kind = "uniform" then showAxis (resolveUniformFromLength Float.ofNat roundHalfEven c h len)
+      else if kind = "quasi" then showAxis (resolveQuasiFromLength Float.ofNat roundHalfEven c h len)
+      else "bad-op"
+    | _ => "bad-op"
   | ["cells", len, h] =>
     match floatsOfHex [len, h] with
     | some [len, h] => toString (cellsFromLength roundHalfEven len h)
